@@ -42,7 +42,8 @@ class Injector:
     """Raises `exc` from the line tracer at the `ordinal`-th line event executed
     in measured/*.py after start().  ordinal <= 0 only counts lines."""
 
-    def __init__(self, ordinal, exc="KeyboardInterrupt"):
+    def __init__(self, ordinal, exc="KeyboardInterrupt", opcodes=False):
+        self.opcodes = opcodes        # count bytecode instructions instead of source lines
         self.ordinal = ordinal
         self.exc_type = EXC[exc]
         self.n = 0
@@ -55,7 +56,9 @@ class Injector:
         return None
 
     def _local(self, frame, event, arg):
-        if event == "line":
+        if self.opcodes and not frame.f_trace_opcodes:
+            frame.f_trace_opcodes = True
+        if event == ("opcode" if self.opcodes else "line"):
             self.n += 1
             if self.n == self.ordinal and not self.fired:
                 self.fired = True
